@@ -183,6 +183,26 @@ fn ops() -> Vec<Op> {
             },
         },
         Op {
+            // the fixed-point lane over its whole raw domain (not only images of f32 values),
+            // shaped towards the saturation boundary, rounding ties and extreme quotients, and
+            // checked against an exact integer reference (round to nearest, ties to even,
+            // saturating) written from the documented contract
+            name: "dfix64_raw",
+            words: 5,
+            finite_only: false,
+            scalar_out: false,
+            f: |w, o| {
+                let (a, b) = shape_raw_pair(w);
+                let (x, y) = (DFix64::from_raw(a), DFix64::from_raw(b));
+                let got = [(x + y).raw(), (x - y).raw(), (x * y).raw(), (x / y).raw(), (-x).raw()];
+                let want = [ref_sat(a as i128 + b as i128), ref_sat(a as i128 - b as i128), ref_mul(a, b), ref_div(a, b), ref_sat(-(a as i128))];
+                for (k, (g, wv)) in got.iter().zip(want.iter()).enumerate() {
+                    assert!(g == wv, "REFERENCE-MISMATCH dfix64 op {} (0 add,1 sub,2 mul,3 div,4 neg) a={a:#x} b={b:#x}: got {g:#x}, exact integer reference {wv:#x}", k);
+                    push64(o, *g);
+                }
+            },
+        },
+        Op {
             name: "vec3_ops",
             words: 6,
             finite_only: true,
@@ -230,6 +250,88 @@ fn ops() -> Vec<Op> {
             },
         },
     ]
+}
+
+
+// ---------------------------------------------------------------------------
+// Q32.32 reference model (exact integers) and raw-operand shaping
+
+fn ref_sat(v: i128) -> i64 {
+    if v > i64::MAX as i128 {
+        i64::MAX
+    } else if v < i64::MIN as i128 {
+        i64::MIN
+    } else {
+        v as i64
+    }
+}
+
+/// nearest integer to num/den (den > 0), ties to even
+fn ref_round_div(num: i128, den: i128) -> i128 {
+    let fl = num.div_euclid(den);
+    let rem = num.rem_euclid(den);
+    match (2 * rem).cmp(&den) {
+        std::cmp::Ordering::Less => fl,
+        std::cmp::Ordering::Greater => fl + 1,
+        std::cmp::Ordering::Equal => {
+            if fl % 2 == 0 {
+                fl
+            } else {
+                fl + 1
+            }
+        }
+    }
+}
+
+fn ref_mul(a: i64, b: i64) -> i64 {
+    ref_sat(ref_round_div(a as i128 * b as i128, 1i128 << 32))
+}
+
+fn ref_div(a: i64, b: i64) -> i64 {
+    if b == 0 {
+        // documented policy: 0/0 = 0, x/0 saturates with the sign of x
+        return if a == 0 { 0 } else if a < 0 { i64::MIN } else { i64::MAX };
+    }
+    let (mut num, mut den) = ((a as i128) << 32, b as i128);
+    if den < 0 {
+        num = -num;
+        den = -den;
+    }
+    ref_sat(ref_round_div(num, den))
+}
+
+/// Two raw Q32.32 operands from five input words; the fifth selects a shape.
+fn shape_raw_pair(w: &[u32]) -> (i64, i64) {
+    let a0 = ((w[0] as u64) << 32 | w[1] as u64) as i64;
+    let b0 = ((w[2] as u64) << 32 | w[3] as u64) as i64;
+    let m = w[4];
+    let sgn = |v: i128, neg: bool| if neg { -v } else { v };
+    const SP: [i64; 12] = [0, 1, -1, i64::MAX, i64::MIN, i64::MIN + 1, 1 << 32, (1 << 32) + 1, (1 << 32) - 1, -(1 << 32), 1 << 31, 0x7fff_ffff_8000_0000];
+    match m % 8 {
+        0 => (a0, b0),
+        1 => (a0 >> 24, b0),
+        2 | 3 => {
+            // products next to the saturation boundary 2^95 (and half an ulp below it)
+            let mag_a = ((a0.unsigned_abs() >> (m >> 8) % 31) | (1 << 32)) as i128;
+            let edge = if m % 8 == 2 { (1i128 << 95) - 1 } else { (1i128 << 95) - (1i128 << 31) };
+            let delta = (b0 as i128 & 0x3_ffff_ffff) - (1i128 << 33);
+            let mag_b = ((edge + delta * ((m >> 16) as i128 & 1)) / mag_a + ((m >> 17) as i128 & 3) - 1).max(1);
+            (ref_sat(sgn(mag_a, m & 0x10 != 0)), ref_sat(sgn(mag_b, m & 0x20 != 0)))
+        }
+        4 => {
+            // exact rounding ties: low 32 bits of the product are 0x8000_0000
+            let x = ((a0 as i128) & 0xffff_ffff) | 1;
+            let y = (((b0 as i128) & 0x7fff_ffff) << 1) | 1;
+            (ref_sat(sgn(x << 16, m & 0x10 != 0)), ref_sat(sgn(y << 15, m & 0x20 != 0)))
+        }
+        5 => {
+            // extreme quotients: tiny divisors, huge dividends
+            let d = (b0 & 0xffff) as i128 + ((m >> 8) as i128 & 1);
+            (a0 | (1 << 62), ref_sat(sgn(d, m & 0x20 != 0)))
+        }
+        6 => (SP[(m >> 8) as usize % SP.len()], SP[(m >> 16) as usize % SP.len()]),
+        _ => (DFix64::from_f32(f32::from_bits(w[0])).raw(), b0 >> ((m >> 8) % 40)),
+    }
 }
 
 fn inputs_for(op: &Op, mode: &str, i: u64, seed: u64, sp: &[u32], buf: &mut Vec<u32>) {
